@@ -211,9 +211,17 @@ def build_case(fail_idx, kinds, block, module_from=None, recursion_n=2):
         lib.append("print \"unreachable end of lib\"")
         main.append("import lib")
     main.append("print \"unreachable end\"")
+    aux = None
+    if not uses_lib and layout in (1, 2, 4):
+        # a decoy module that is only imported: it holds a passing assert behind a header whose line density
+        # differs from main.ms (what is reported for main.ms must not depend on files compiled before it)
+        main = ["import aux"] + main
+        aux = (["# c"] * 14 if layout != 2 else ["# " + "long comment line " * 4] * 2) + ["assert 1 < 2", "export auxv: int = 1"]
     files = {"main.ms": "\n".join(main) + "\n"}
     if uses_lib:
         files["lib.ms"] = "\n".join(lib) + "\n"
+    if aux:
+        files["aux.ms"] = "\n".join(aux) + "\n"
     # expected output and frames
     out = ["start"]
     fr = [("main.mmm", "__module__")]
